@@ -14,7 +14,7 @@ def run_world(spec, plan=None, opts=None, extra_argv=(), mode='in',
               env_extra=None, timeout=120, keep=False, python=None,
               markers=False, path_opt='--path', pre=None, post=None,
               warnings=None, stdin=None, root=None, script_parts=None,
-              launcher=None, run_cwd=None):
+              launcher=None, run_cwd=None, cwd=None):
     """Materialise (unless root given), run, destroy.  Returns WorldRun with
     .r (Inproc/CliResult), .events, .out, .info, .verdict, .raised."""
     own_root = root is None
@@ -45,7 +45,7 @@ def run_world(spec, plan=None, opts=None, extra_argv=(), mode='in',
                 argv, os.path.join(root, 'world.json'), trace, plan=plan_path,
                 purge=(spec['prefix'],), env_extra=ee, pre=pre, post=post,
                 warnings=warnings, stdin=stdin, script_parts=script_parts,
-                run_cwd=run_cwd, defaults=defaults)
+                run_cwd=run_cwd, defaults=defaults, cwd=cwd)
             w.out = r.out
             w.raised = r.raised
             w.raised_tb = r.raised_tb
@@ -58,7 +58,7 @@ def run_world(spec, plan=None, opts=None, extra_argv=(), mode='in',
             r = runcase.run_cli(
                 argv, os.path.join(root, 'world.json'), trace, plan=plan_path,
                 env_extra=env_extra, timeout=timeout, python=python,
-                markers=mdir, cwd=root, launcher=launcher)
+                markers=mdir, cwd=cwd or root, launcher=launcher)
             w.out = r.out
             w.err = r.err
             w.rc = r.rc
